@@ -482,9 +482,15 @@ class ECU(UDSClient):
         exception: Exception | None = None
         send_time = datetime.now(UTC).astimezone()
         receive_time = None
+        # Set once the client mutex is held, i.e. once the exchange starts. A request which is
+        # cancelled while it still waits for another exchange to finish never reaches the wire
+        # and must not show up in the database.
+        started = False
 
         try:
-            response = await super()._request(request, config)
+            async with self.mutex:
+                started = True
+                response = await self.request_unsafe(request, config)
             receive_time = datetime.now(UTC).astimezone()
             return response
         except ResponseException as e:
@@ -497,7 +503,7 @@ class ECU(UDSClient):
             raise
         finally:
             try:
-                if self.implicit_logging and self.db_handler is not None:
+                if started and self.implicit_logging and self.db_handler is not None:
                     mode = LogMode.implicit
 
                     if config is not None and config.tags is not None and "ANALYZE" in config.tags:
